@@ -45,6 +45,7 @@ type FuncContract struct {
 	Modifies []Expr
 	ModText  []string
 	ModAll   bool // "modifies everything"
+	ModExcept []Expr // with "modifies heap": components that are NOT modified (heap-except(...))
 	ModHeap  bool // "modifies heap": every program-visible location, but only the listed ghost state
 	HasMod   bool
 	Wrapping bool
@@ -58,6 +59,8 @@ type FuncContract struct {
 	Used     bool
 	Assumes  []Clause // postconditions assumed at call sites but NOT checked against the body (listed as assumptions)
 	ForwardFrames bool // "hint forward-frames": frame axioms of array updates also trigger on reads of the old array
+	GhostResults []Param // ghost results (name, ghost type): extra, specification-only results of the function
+	GhostDefs    []AtItem // ghostdef name[q] := expr : definition of a ghost result at exit
 	GhostSets []AtItem // ghost updates at function exit:  ghostset target := expr
 	Preserves []Clause // closure invariants: required at entry, ensured at exit
 	Calls     []string // parameters that are callbacks: the function's only other effects come from invoking them
@@ -143,7 +146,7 @@ type MonitorInv struct {
 	E     Expr
 }
 
-var clauseKw = map[string]bool{"assumes": true, "hint": true, "ghostset": true, "preserves": true, "calls": true, "requires": true, "ensures": true, "modifies": true, "assigns": true,
+var clauseKw = map[string]bool{"ghostresult": true, "ghostdef": true, "assumes": true, "hint": true, "ghostset": true, "preserves": true, "calls": true, "requires": true, "ensures": true, "modifies": true, "assigns": true,
 	"decreases": true, "wrapping": true, "loop": true, "at": true, "pure": true, "opaque": true,
 	"use": true, "by": true}
 var itemKw = map[string]bool{"spec": true, "lemma": true, "func": true, "interface": true, "trusted": true,
@@ -532,6 +535,32 @@ func parseContractFile(path, pkgPath string, requirePrefix bool) (*ContractFile,
 			} else {
 				return nil, fail("clause outside item")
 			}
+		case "ghostresult":
+			if curF == nil {
+				return nil, fail("ghostresult outside func")
+			}
+			k := strings.IndexAny(rest, " \t")
+			if k < 0 {
+				return nil, fail("bad ghostresult")
+			}
+			curF.GhostResults = append(curF.GhostResults, Param{Name: rest[:k], Type: strings.TrimSpace(rest[k+1:])})
+		case "ghostdef":
+			if curF == nil {
+				return nil, fail("ghostdef outside func")
+			}
+			eq := strings.Index(rest, ":=")
+			if eq < 0 {
+				return nil, fail("ghostdef needs :=")
+			}
+			te, err := parseExpr(strings.TrimSpace(rest[:eq]))
+			if err != nil {
+				return nil, fail("%v", err)
+			}
+			ve, err := parseExpr(strings.TrimSpace(rest[eq+2:]))
+			if err != nil {
+				return nil, fail("%v", err)
+			}
+			curF.GhostDefs = append(curF.GhostDefs, AtItem{What: "ghostdef", Target: te, E: ve, Text: rest})
 		case "assumes":
 			if curF == nil {
 				return nil, fail("assumes outside func")
@@ -611,6 +640,17 @@ func parseContractFile(path, pkgPath string, requirePrefix bool) (*ContractFile,
 					curF.ModHeap = true
 					continue
 				}
+				if strings.HasPrefix(part, "heap-except(") && strings.HasSuffix(part, ")") {
+					curF.ModHeap = true
+					for _, x := range splitTop(part[len("heap-except("):len(part)-1], ',') {
+						e, err := parseExpr(x)
+						if err != nil {
+							return nil, fail("%v", err)
+						}
+						curF.ModExcept = append(curF.ModExcept, e)
+					}
+					continue
+				}
 				e, err := parseExpr(part)
 				if err != nil {
 					return nil, fail("%v", err)
@@ -679,7 +719,7 @@ func parseContractFile(path, pkgPath string, requirePrefix bool) (*ContractFile,
 			// at <anchor words> (use|assert|assume) ...
 			idx := -1
 			what := ""
-			for _, kw := range []string{" use ", " assert ", " ghost "} {
+			for _, kw := range []string{" use ", " assert ", " ghost ", " bind "} {
 				if k := strings.Index(rest, kw); k >= 0 && (idx < 0 || k < idx) {
 					idx = k
 					what = strings.TrimSpace(kw)
@@ -701,6 +741,11 @@ func parseContractFile(path, pkgPath string, requirePrefix bool) (*ContractFile,
 				}
 				ai.Target = te
 				body = strings.TrimSpace(body[eq+2:])
+			}
+			if what == "bind" {
+				ai.Text = body
+				curF.At = append(curF.At, ai)
+				continue
 			}
 			c, err := parseClauseExpr(what, body, ll.line, path)
 			if err != nil {
